@@ -145,16 +145,41 @@ class SetOf(Kind):
         return [bigop.fin(v.t)]
 
 
+_list_sorts = {}
+
+
+def _list_sort(elem):
+    key = elem.name
+    if key not in _list_sorts:
+        d = z3.Datatype("List_" + _mangle(key))
+        d.declare("mklist", ("llen", z3.IntSort()), ("larr", z3.ArraySort(z3.IntSort(), elem.sort())))
+        _list_sorts[key] = d.create()
+    return _list_sorts[key]
+
+
 class SeqOf(Kind):
+    """Python list/tuple of a single element kind: (length, Array(Int, E)).
+    Stored inside other values as one datatype term List_E = mklist(len, arr);
+    list equality is `VSeq.eq` (length + elementwise), never term equality."""
+
     def __init__(self, elem):
         self.elem = elem
         self.name = f"seq[{elem.name}]"
 
     def sort(self):
-        return z3.SeqSort(self.elem.sort())
+        return _list_sort(self.elem)
 
     def wrap(self, t):
-        return VSeq(self.elem, t)
+        srt = self.sort()
+        return VSeq(self.elem, srt.larr(t), srt.llen(t))
+
+    def fresh(self, ctx, hint):
+        n = ctx.fresh_name(hint)
+        return VSeq(self.elem, z3.Const(n + "!arr", z3.ArraySort(z3.IntSort(), self.elem.sort())),
+                    z3.Const(n + "!len", z3.IntSort()))
+
+    def wf(self, v):
+        return [v.n >= 0]
 
 
 class MapOf(Kind):
@@ -171,6 +196,20 @@ class MapOf(Kind):
     def wf(self, v):
         from . import bigop
         return [bigop.fin(v.dom)]
+
+
+class DefaultMapOf(MapOf):
+    """collections.defaultdict(factory): missing keys read as `default` and are inserted"""
+
+    def __init__(self, key, val, default):
+        super().__init__(key, val)
+        self.default = default
+        self.name = "default" + self.name
+
+    def fresh(self, ctx, hint):
+        m = super().fresh(ctx, hint)
+        m.default = self.default
+        return m
 
 
 class Opt(Kind):
@@ -330,7 +369,7 @@ class VEmptySeq(V):
     kind = None
 
     def to(self, elem):
-        return VSeq(elem, z3.Empty(z3.SeqSort(elem.sort())), items=[])
+        return VSeq.of(elem, [])
 
     def __repr__(self):
         return "VEmptySeq"
@@ -350,37 +389,79 @@ class VEmptyMap(V):
 
 
 class VSeq(V):
-    def __init__(self, elem, t, items=None):
-        self.elem, self.t, self.items = elem, t, items
+    """list value: elements arr[0..n-1]; `items` is the Python list of element
+    values when the length is concrete"""
+
+    def __init__(self, elem, arr, n, items=None):
+        self.elem, self.arr, self.n, self.items = elem, arr, n, items
         self.kind = SeqOf(elem)
+
+    @property
+    def t(self):
+        return _list_sort(self.elem).mklist(self.n, self.arr)
+
+    @staticmethod
+    def base_arr(elem):
+        return z3.Const("nil!" + _mangle(elem.name), z3.ArraySort(z3.IntSort(), elem.sort()))
 
     @staticmethod
     def of(elem, items):
-        srt = z3.SeqSort(elem.sort())
-        if not items:
-            return VSeq(elem, z3.Empty(srt), items=[])
-        t = z3.Unit(items[0].t)
-        for x in items[1:]:
-            t = z3.Concat(t, z3.Unit(x.t))
-        return VSeq(elem, t, items=list(items))
+        arr = VSeq.base_arr(elem)
+        for i, x in enumerate(items):
+            arr = z3.Store(arr, i, x.t)
+        return VSeq(elem, arr, z3.IntVal(len(items)), items=list(items))
 
     def length(self):
-        if self.items is not None:
-            return z3.IntVal(len(self.items))
-        return z3.Length(self.t)
+        return self.n
 
     def at(self, i):
-        """element at (non-negative, in-range) index term i"""
-        return self.elem.wrap(self.t[i])
+        return self.elem.wrap(z3.Select(self.arr, i))
+
+    def append(self, x):
+        items = self.items + [x] if self.items is not None else None
+        return VSeq(self.elem, z3.Store(self.arr, self.n, x.t), self.n + 1, items)
+
+    def concat(self, o):
+        if o.items is not None:
+            r = self
+            for x in o.items:
+                r = r.append(x)
+            return r
+        i = z3.Int("i!cat")
+        arr = z3.Lambda([i], z3.If(i < self.n, self.arr[i], o.arr[i - self.n]))
+        return VSeq(self.elem, arr, self.n + o.n)
+
+    def sub(self, lo, ln):
+        c_lo = concrete_int(lo)
+        if c_lo == 0:
+            return VSeq(self.elem, self.arr, ln)
+        i = z3.Int("i!sub")
+        return VSeq(self.elem, z3.Lambda([i], self.arr[i + lo]), ln)
+
+    def set_at(self, i, x):
+        return VSeq(self.elem, z3.Store(self.arr, i, x.t), self.n)
+
+    def eq(self, o):
+        i = z3.Int("i!seq")
+        return z3.And(self.n == o.n,
+                      z3.ForAll([i], z3.Implies(z3.And(0 <= i, i < self.n), self.arr[i] == o.arr[i])))
+
+    def has(self, xt):
+        """membership of the element term xt"""
+        if self.items is not None:
+            return z3.Or([y.t == xt for y in self.items] or [z3.BoolVal(False)])
+        i = z3.Int("i!mem")
+        return z3.Exists([i], z3.And(0 <= i, i < self.n, self.arr[i] == xt))
 
     def __repr__(self):
-        return f"VSeq({self.t})"
+        return f"VSeq(n={self.n})"
 
 
 class VMap(V):
-    def __init__(self, key, val, dom, valarr):
+    def __init__(self, key, val, dom, valarr, default=None):
         self.key, self.val, self.dom, self.valarr = key, val, dom, valarr
         self.kind = MapOf(key, val)
+        self.default = default        # collections.defaultdict: value for missing keys
 
     def has(self, k):
         return z3.Select(self.dom, k.t)
@@ -391,11 +472,11 @@ class VMap(V):
     def put(self, k, v):
         return VMap(self.key, self.val,
                     z3.Store(self.dom, k.t, z3.BoolVal(True)),
-                    z3.Store(self.valarr, k.t, v.t))
+                    z3.Store(self.valarr, k.t, v.t), self.default)
 
     def remove(self, k):
         return VMap(self.key, self.val,
-                    z3.Store(self.dom, k.t, z3.BoolVal(False)), self.valarr)
+                    z3.Store(self.dom, k.t, z3.BoolVal(False)), self.valarr, self.default)
 
     def __repr__(self):
         return f"VMap({self.dom},{self.valarr})"
@@ -515,3 +596,36 @@ class TupleKey(Kind):
 
     def field(self, t, i):
         return self.sort().accessor(0, i)(t)
+
+
+class Abstract(Kind):
+    """An object modelled as a value of an uninterpreted sort whose attributes
+    are uninterpreted functions of the object (immutable while the function
+    under verification runs).  `methods` maps a method name either to
+    ("pure", result Kind)  -- a function of the receiver alone -- or to a
+    handler(ex, st, recv, pos, kw, node) -> [(state, value|Exc)]."""
+
+    def __init__(self, name, attrs=None, methods=None):
+        self.name = name
+        self.attrs = attrs or {}
+        self.methods = methods or {}
+
+    def sort(self):
+        if self.name not in _atom_sorts:
+            _atom_sorts[self.name] = z3.DeclareSort(self.name)
+        return _atom_sorts[self.name]
+
+    def wrap(self, t):
+        return VAtom(self, t)
+
+    def attr_fn(self, a, kind=None):
+        kind = kind or self.attrs[a]
+        return z3.Function(f"{self.name}.{a}", self.sort(), kind.sort())
+
+    def attr(self, v, a):
+        kind = self.attrs[a]
+        return kind.wrap(self.attr_fn(a)(v.t))
+
+    def method_fn(self, m):
+        spec = self.methods[m]
+        return z3.Function(f"{self.name}.{m}()", self.sort(), spec[1].sort())
